@@ -92,11 +92,38 @@ def exc_info(ex: BaseException) -> dict:
             "cfc": getattr(ex, "consecutive_failures_count", -1)}
 
 
+_EXEC_PATCHED = False
+
+
+def _patch_execute():
+    """Observe ProtocolCommand.execute (a public coroutine) at its call / return boundary: XCALL / XRET events."""
+    global _EXEC_PATCHED
+    if _EXEC_PATCHED:
+        return
+    from goodwe.protocol import ProtocolCommand
+    orig = ProtocolCommand.execute
+
+    async def execute(self, protocol):
+        loop = asyncio.get_event_loop()
+        rec = getattr(loop, "rec", None)
+        if rec:
+            rec("XCALL")
+        try:
+            return await orig(self, protocol)
+        finally:
+            if rec:
+                rec("XRET")
+
+    ProtocolCommand.execute = execute
+    _EXEC_PATCHED = True
+
+
 class World:
     """One virtual loop, several simulated inverters addressed by host name."""
 
     def __init__(self, prog: dict, strict: bool = True):
         self.prog = prog
+        _patch_execute()
         self.loop = VLoop(strict=strict, horizon=prog.get("horizon", 400000))
         asyncio.set_event_loop(self.loop)
         self.events = self.loop.events
